@@ -172,6 +172,7 @@ Section Shape.
         | Some n =>
             match nr_kind n with
             | KdStruct | KdUnion | KdTime => true
+            | KdArray => Z.ltb 0 (nr_len n)          (* a fixed size array of positive length is never empty *)
             | KdNamed => match nr_children n with [u] => never_empty f u | _ => false end
             | _ => false
             end
